@@ -36,7 +36,7 @@ THEOREMS = ['C18_decorate_shapes', 'C18_null_eq_wire_partial', 'C18_null_eq_wire
             'C18_ostr_is_the_wire_response', 'C18_unknown_method', 'C18_null_too_many_args',
             'C18_own_type_info_refuted', 'C18_ignored_empty_tuple_refuted']
 
-IMPORTS = 'From SpyneV Require Import C18.Spec C18.Proofs.'
+IMPORTS = 'From SpyneV Require Import C18.Spec.'
 
 SAFE_TEXT = ['a', 'hello', 'x y', ' lead', 'trail ', '<&>"\'', 'ünï', '中文', '0', 'true', 'None', 'a\nb',
              '\U0001f600', 'null', '[]', '{}']
@@ -966,7 +966,9 @@ def one_call(check, svc, dc, args, kw, hs, plan, cases, st, conformant, replay_e
                     oobs = ('rdoc', decode_response(svc, proto, dc, oout[1], False))
                 except Exception as e:
                     oobs = ('crash', 'decode:' + type(e).__name__)
-            if modelled and oobs[0] in ('rdoc', 'crash', 'fault'):
+            if modelled and not all_in_universe(olog, ('ret', ('val', ('none',)))):
+                check.mismatch('null_call_ostr', 'observation outside the modelled universe: %r %r' % (oobs[:3], olog))
+            elif modelled and oobs[0] in ('rdoc', 'crash', 'fault'):
                 term = '(%s, %s, %s, %s, %s, (%s, %s))' % (
                     G_PROTO[proto], gtext(name), g_plan(plan), glist([UV.g_val(a) for a in args]), g_kw(kw),
                     g_outcome(oobs), glist([g_event(e) for e in olog]))
@@ -1153,21 +1155,21 @@ def run(check):
     svcs = []
     d0, dc0 = fixed_service(0)
     svcs.append(Svc(0, d0, dc0))
-    for i in range(1, 6 if quick else 40):
+    for i in range(1, 17 if quick else 60):
         desc = UV.gen_universe(rng, n_classes=rng.randint(2, 4), max_fields=3, namespaces=(TNS,), allow_attr=False,
                                allow_arrays=True, allow_inherit=True, allow_multi=False, name_prefix='K%dx' % i)
         if rng.random() < 0.5 and len(desc['classes']) > 1 and desc['classes'][-1]['parent'] is None:
             desc['classes'][-1]['parent'] = rng.randrange(len(desc['classes']) - 1)   # make inheritance common
             taken = set(f['name'] for f in UV.flat_fields(desc, desc['classes'][-1]['parent']))
             desc['classes'][-1]['fields'] = [f for f in desc['classes'][-1]['fields'] if f['name'] not in taken]
-        decls = [gen_decl(rng, desc, 'm%d_%d' % (i, j)) for j in range(7 if quick else 10)]
+        decls = [gen_decl(rng, desc, 'm%d_%d' % (i, j)) for j in range(8 if quick else 10)]
         svcs.append(Svc(i, desc, decls))
     family_decorate(check, svcs, check.tier)
     cases = Cases()
     for svc in svcs:
         for dc in svc.decls:
             if null_supported(dc):
-                for _ in range(2 if quick else 4):
+                for _ in range(3 if quick else 6):
                     args, kw, hs = gen_call(rng, svc, dc)
                     one_call(check, svc, dc, args, kw, hs, gen_plan(rng, svc, dc), cases, st, True)
                 if svc.idx == 0:
